@@ -71,6 +71,9 @@ class BitStore:
             if x.modified_length > len(x._bitarray):
                 raise CreationError(
                     f"Can't create bitstring with a length of {x.modified_length} from {len(x._bitarray)} bits of data.")
+            # Keep just the requested bits (in memory), so that every operation sees exactly that length.
+            x._bitarray = bitarray.bitarray(x._bitarray[:x.modified_length])
+            x.modified_length = None
         return x
 
     def setall(self, value: int, /) -> None:
